@@ -184,7 +184,8 @@ class Run:
     def cid_of(self, spec):
         if "raw" in spec:
             return spec["raw"]
-        return self.cfg.digest(self.contents[spec["of"]])
+        cid = self.cfg.digest(self.contents[spec["of"]])
+        return cid.upper() if spec.get("upper") else cid
 
     def data_arg(self, idx, kind, offset=0, docs=False):
         paths, blobs = (self.dpaths, self.docs) if docs else (self.cpaths, self.contents)
